@@ -206,6 +206,16 @@ def assemble(template_path):
             for a in kept:
                 out.append(indent + a)
                 linemap.append((len(out), ("repo", rel, it.first_line)))
+            # helper attributes of serde / clap derives on fields and variants cannot exist without those derives
+            helper = re.compile(r"^\s*#\[(value|serde|clap|arg|command)\b.*\]\s*$")
+            kept_lines = []
+            for bl in rest.split("\n"):
+                if helper.match(bl):
+                    rec["dropped"].append(bl.strip())
+                    kept_lines.append("")  # keep the line numbering of the item
+                else:
+                    kept_lines.append(bl)
+            rest = "\n".join(kept_lines)
             first = it.last_line - rest.count("\n")
             for k, bl in enumerate(rest.split("\n")):
                 out.append(indent + bl if k == 0 else bl)
